@@ -36,10 +36,10 @@ type Row struct {
 }
 
 type driver struct {
-	v   *env
-	res *vh.Result
-	tr  *vh.Trace
-	rnd *rand.Rand
+	v    *env
+	res  *vh.Result
+	tr   *vh.Trace
+	rnd  *rand.Rand
 	perm []map[string]any
 }
 
@@ -62,7 +62,9 @@ func (d *driver) exec(src, op string, root int, chain []Hop, fin final, direct [
 		script = direct
 	} else {
 		var hops []hop
-		for i, h := range chain[:len(chain)-1] {
+		probes := chain[:len(chain)-1]
+		for i := 0; i < len(probes); i++ {
+			h := probes[i]
 			p := v.P1
 			if i%2 == 1 {
 				p = v.P2
@@ -73,8 +75,20 @@ func (d *driver) exec(src, op string, root int, chain []Hop, fin final, direct [
 			} else if d.rnd.Intn(3) == 0 {
 				m = "tcall"
 			}
-			hops = append(hops, hop{p.Hash, m, h.Q})
 			path[p.Hash] = true
+			if i%2 == 0 && i+1 < len(probes) && !h.S && d.rnd.Intn(3) == 0 {
+				// the next hop (P1 -> P2) through a method token with static flags instead of System.Contract.Call
+				nx := probes[i+1]
+				m = fmt.Sprintf("kcall%d", nx.Q)
+				if nx.S {
+					m = fmt.Sprintf("kscall%d", nx.Q)
+				}
+				hops = append(hops, hop{p.Hash, m, h.Q})
+				path[v.P2.Hash] = true
+				i++
+				continue
+			}
+			hops = append(hops, hop{p.Hash, m, h.Q})
 		}
 		script = chainScript(hops, fin.hash, fin.method, chain[len(chain)-1].Q, fin.args)
 		path[fin.hash] = true
@@ -87,18 +101,13 @@ func (d *driver) exec(src, op string, root int, chain []Hop, fin final, direct [
 	if o.MonErr != "" {
 		v.t.Fatalf("monitor failed on %s/%s: %s", src, op, o.MonErr)
 	}
-	other, target := false, len(chain) == 0
-	for h := range o.Executed {
-		if path[h] {
-			if h == fin.hash {
-				target = true
-			}
-			continue
+	// c: a contract outside the requested path was CALLED (frames created by a contract call or by native code);
+	// t: the frame under test was executed
+	other, target := false, len(chain) == 0 || o.Executed[fin.hash]
+	for _, f := range o.Frames {
+		if (f.Kind == "c" || f.Kind == "n") && !path[f.Full] {
+			other = true
 		}
-		if h == o.Entry {
-			continue
-		}
-		other = true
 	}
 	ch := chain
 	if ch == nil {
@@ -188,8 +197,7 @@ func (d *driver) sysCases() {
 	for _, n := range names {
 		for f := 0; f < 16; f++ {
 			// the system call issued by the entry script itself, loaded with flag set f
-			o := d.exec("sys", n, f, nil, final{}, v.sysScript(n))
-			d.noteSys(reached, n, f, o)
+			d.exec("sys", n, f, nil, final{}, v.sysScript(n))
 			for _, p := range positions(f, false, true) {
 				o := d.exec("sys", n, p.root, p.chain, final{hash: v.S.Hash, method: v.sysMethods[n]}, nil)
 				if p.name == "probe-req" {
@@ -199,7 +207,7 @@ func (d *driver) sysCases() {
 		}
 	}
 	d.res.Inc("syscalls", len(names))
-	d.res.Stats["syscall_effects_under_all_flags"] = reached
+	d.res.Stats["syscall_outcome_in_probe_all_flags"] = reached
 }
 
 func (d *driver) noteSys(reached map[string]string, n string, f int, o *Obs) {
@@ -217,11 +225,9 @@ func (d *driver) noteSys(reached map[string]string, n string, f int, o *Obs) {
 		s += "c"
 	}
 	if !o.Halt {
-		s += "!"
+		s += " FAULT"
 	}
-	if s != "" {
-		reached[n] = s
-	}
+	reached[n] = s
 }
 
 func (d *driver) natCases() {
